@@ -607,8 +607,16 @@ func (self *Core) runInstruction(instruction compiler.Instruction) *value.VmInte
 			Function:           i.ValueString,
 			InstructionPointer: uint(i.ValueInt),
 		})
+		self.exceptionCatchStates = append(self.exceptionCatchStates, exceptionCatchState{
+			callStackDepth: len(self.CallStack),
+			stackDepth:     len(self.Stack),
+			memoryPointer:  self.MemoryPointer,
+		})
 	case compiler.Opcode_PopTryLabel:
 		self.ExceptionCatchLabels = self.ExceptionCatchLabels[:len(self.ExceptionCatchLabels)-1]
+		if len(self.exceptionCatchStates) > len(self.ExceptionCatchLabels) {
+			self.exceptionCatchStates = self.exceptionCatchStates[:len(self.ExceptionCatchLabels)]
+		}
 	case compiler.Opcode_Member:
 		i := instruction.(compiler.OneStringInstruction)
 
